@@ -23,6 +23,25 @@ def main():
                                          '    g List(S)?\n\nroute r(S, U, Void)\n')])
         for cfg in ('python_types', 'js_types', 'swift_types'):
             B.run_backend(api0, cfg, os.path.join(outdir, '_pre_' + cfg))
+        # ... and a spec that reuses the names of this one for different things (every
+        # alias and type name becomes a struct of another namespace), through every
+        # configuration, so that state kept between runs has something to leak
+        import re
+        names = set()
+        for _, text in files:
+            names.update(re.findall(r'(?m)^(?:alias|struct|union|union_closed) ([A-Za-z_][A-Za-z0-9_]*)', text))
+        hist = 'namespace zzhist\n\n' + ''.join(
+            'struct %s\n    "history"\n    hist_field String?\n\n' % n for n in sorted(names))
+        cfgfiles = [(n, t) for n, t in files if re.match(r'\s*namespace stone_cfg\b', t)]
+        try:
+            for cfg in order.split(','):
+                api1 = specs_to_ir(cfgfiles + [('zzhist.stone', hist)])
+                try:
+                    B.run_backend(api1, cfg, os.path.join(outdir, '_hist_' + cfg))
+                except BackendException:
+                    pass
+        except Exception:
+            pass
     wl = None
     if whitelist == '1':
         api = specs_to_ir(files)
